@@ -416,7 +416,53 @@ print('{p}', Outer_{n}.Inner().im(), Outer_{n}.Inner.Deep.dm(), Outer_{n}().om()
 print('{p}', 'helper', c08_helper.hf(1), c08_helper.HK().hm(), c08_helper.HK.hs())
 '''),
 ]
+SNIPPETS += [
+    (['dotted_profile_decorator', 'decorated'], '''
+class Registry_{n}:
+    def __init__(self):
+        self.seen = []
+    def profile_it(self, fn):
+        return fn
+    def profile(self, fn):          # last in the class body (see the shadow_profile snippet)
+        self.seen.append(fn.__name__)
+        return fn
+_reg_{n} = Registry_{n}()
+@_reg_{n}.profile
+def dotted_{n}(x):
+    return x + 1
+@_reg_{n}.profile_it
+def dotted2_{n}(x):
+    return x + 2
+print('{p}', dotted_{n}(1), dotted2_{n}(1), _reg_{n}.seen)
+'''),
+    (['shadow_profile', 'methods'], '''
+class User_{n}:
+    def profile(self):
+        return 'user profile'
+    def other(self):
+        return 'other'
+_u_{n} = User_{n}()
+print('{p}', _u_{n}.profile(), _u_{n}.other())
+'''),
+    (['lib_use'], '''
+print('{p}', 'lib', c08lib.alpha.fa(1), c08lib.beta.fb(1), c08lib.gamma.fg(1))
+'''),
+]
 SNIP_TAGS = [t for t, _c in SNIPPETS]
+
+# a helper package: several selected names bound by ONE import statement, followed by further
+# selected imports (registration statements must stay behind their own import)
+LIB_FILES = {
+    'c08lib/__init__.py': '',
+    'c08lib/alpha.py': 'def fa(x=0):\n    y = x + 11\n    return y\n',
+    'c08lib/beta.py': 'def fb(x=0):\n    y = x + 22\n    return y\n',
+    'c08lib/gamma.py': 'def fg(x=0):\n    y = x + 33\n    return y\n',
+}
+LIB_IMPORT_BLOCKS = [
+    ['from c08lib import alpha, beta', 'import json', 'from c08lib import gamma'],
+    ['from c08lib import alpha as la, beta as lb, gamma as lg', 'import c08lib.gamma', 'from c08lib.alpha import fa as lfa'],
+    ['import c08lib.alpha, c08lib.beta', 'from c08lib import gamma as lg2', 'from c08lib.beta import fb'],
+]
 
 FUTURE_HEADERS = [
     ([], []),
@@ -451,7 +497,12 @@ def gen_program(rnd, module_mode=False):
     ftags, fl = rnd.choice(FUTURE_HEADERS) if rnd.random() < 0.5 else ([], [])
     tags |= set(ftags)
     lines += fl
-    lines.append('import c08_helper' if not module_mode else 'import c08_helper')
+    lines.append('import c08_helper')
+    lines += ['import c08lib.alpha, c08lib.beta, c08lib.gamma'] if rnd.random() < 0.5 else \
+             ['import c08lib.gamma', 'import c08lib.alpha, c08lib.beta']
+    if rnd.random() < 0.6:
+        lines += rnd.choice(LIB_IMPORT_BLOCKS)
+        tags.add('multi_name_selected_import')
     for t, imp in rnd.sample(TOP_IMPORTS, rnd.randint(0, 3)):
         if 'bare_relative' in t and (module_mode or rnd.random() < 0.7):
             continue
@@ -466,7 +517,7 @@ def gen_program(rnd, module_mode=False):
     k = rnd.randint(2, 7)
     # constructs whose handling is known to be wrong are kept rarer so most programs are clean
     pool = [i for i, (t, _c) in enumerate(SNIPPETS)
-            if not (set(t) & {'genret', 'genclose', 'genthrow'}) or rnd.random() < 0.35]
+            if not (set(t) & {'genret', 'genclose', 'genthrow', 'shadow_profile'}) or rnd.random() < 0.35]
     chosen = rnd.sample(pool, min(k, len(pool)))
     for j, si in enumerate(chosen):
         stags, code = SNIPPETS[si]
@@ -502,6 +553,7 @@ def gen_program(rnd, module_mode=False):
 def gen_behaviour_case(rnd, module_mode=False):
     prog = gen_program(rnd, module_mode)
     files = {'c08_helper.py': HELPER}
+    files.update(LIB_FILES)
     if module_mode:
         files.update({'rpkg/__init__.py': '', 'rpkg/sib.py': 'thing = 5\ndef sf():\n    return 6\n',
                       'rpkg/sub/__init__.py': '', 'rpkg/sub/near.py': 'def nf():\n    return 3\n'})
@@ -514,10 +566,11 @@ def gen_behaviour_case(rnd, module_mode=False):
         module = None
         me = [script, './' + script]
         if script.startswith('dir_a/'):
-            files['dir_a/c08_helper.py'] = files.pop('c08_helper.py')
+            for rel in ['c08_helper.py'] + sorted(LIB_FILES):
+                files['dir_a/' + rel] = files.pop(rel)
     files[script] = prog['text']
     cfgs = []
-    pick = rnd.sample(['full', 'full_imports', 'helper', 'helper_full', 'nothing'], 2)
+    pick = rnd.sample(['full', 'full_imports', 'helper', 'helper_full', 'nothing', 'lib', 'lib_full'], 2)
     for c in pick:
         m = rnd.choice(me)
         if c == 'full':
@@ -528,6 +581,10 @@ def gen_behaviour_case(rnd, module_mode=False):
             cfgs.append(['-p', 'c08_helper'])
         elif c == 'helper_full':
             cfgs.append(['-p', 'c08_helper,' + m] if rnd.random() < 0.5 else ['-p', 'c08_helper', '-p', m])
+        elif c == 'lib':
+            cfgs.append(rnd.choice([['-p', 'c08lib'], ['-p', 'c08lib.alpha,c08lib.beta', '-p', 'c08lib.gamma']]))
+        elif c == 'lib_full':
+            cfgs.append(['-p', 'c08lib,c08_helper,' + m])
         else:
             cfgs.append(['-p', 'nothing_matches_this'])
     return dict(kind='behaviour', files=files, script=script, module=module, configs=cfgs, cfg_names=pick,
